@@ -26,7 +26,8 @@ THEOREMS = ["final_step_bound", "variance_gives_delta", "converged_rowsums_bound
             "diag_rowsums_not_flat", "trans_rowsums_not_flat", "masks_code_eq_spec",
             "applyUpdate_nonneg", "applyUpdate_zero_iff", "icLoop_invariant", "others_positive",
             "mask_iff_partial", "mask_iff", "icLoop_emptied_iff", "margVec_pattern", "balance_genome_mask_iff",
-            "maskedBias_zero_iff", "rowsumTouch_eq", "provedInterval_sound", "madcut_real"]
+            "maskedBias_zero_iff", "rowsumTouch_eq", "provedInterval_sound", "madcut_real", "model_marg_eq_dense",
+            "model_final_step_bound", "model_converged_bound", "list_variance_gives_delta"]
 LEVELS = {"model": "unit", "marginalize": "unit", "masks": "top", "flat": "top", "run": "top", "stored": "top",
           "cli": "top"}
 DESCRIBE = {
@@ -183,6 +184,14 @@ def _model(case):
     for x, exp in zip(m["bias"], e["code"]):
         if (x is None) != (exp == "nan") or (x is not None and not (x[0] > 0)):
             raise AssertionError("model run disagrees with `expectations`: theorem mask_iff/others_positive contradicted")
+    # the model's own converged domains satisfy the proved bound exactly (slack 0) for the functional the code
+    # flattens (theorems model_converged_bound / cis_bound / trans_bound_partial / diag_partial): Lean against Lean
+    if any(c and sc is not None for c, sc in zip(m["converged"], m["scales"])):
+        vv = drv().ask("C10.verify", weights=m["bias"], rescaled=False, slack=[0, 1],
+                       variant="cw" if case["opts"]["mode"] == "trans" else "diag2",
+                       scales=[sc if c else None for c, sc in zip(m["converged"], m["scales"])], **_args(case))["domains"]
+        if not all(v["inside"] for v in vv):
+            raise AssertionError("model run violates the proved interval: theorem model_converged_bound contradicted")
     gap = fl(m["min_gap"])
     if gap is not None and gap < TIE:
         return {"stats": {"ties_skipped": 1}}
